@@ -96,8 +96,13 @@ def pk(line, t):
 def evaluate(cs, rep, tier):
     plain = [c for c in cs if c.tag != "variants"]
     impl, model, dis = G.diff_impl_model(plain, PROFILES, "windows")
+    # a request the model (= the RFC stream, proved producible for every id below 2^24) answers and on which the
+    # implementation panics in some build is a counterexample of its own: that id is not producible there
+    panics = [d for d in dis if str(d.get("impl", "")).split()[:1] != ["1"] and str(d.get("model", "")).split()[:1] == ["1"]]
     res = dict(zip([c.key() for c in plain], impl))
     counter = []
+    for d in panics[:3]:
+        counter.append({"input": d["input"][:600], "expected": "the packets of the RFC stream (model): " + str(d["model"])[:80], "observed": "the implementation panics: " + str(d["impl"])[:60], "profile": d.get("profile"), "oracle": "C18: every requested window of ids below 2^24 is producible, in every build"})
     for w, singles, o, k, t in getattr(cases, "groups", []):
         pw = pk(res[w.key()], t)
         ps = [pk(res[s.key()], t) for s in singles]
